@@ -468,5 +468,7 @@ MUTANTS = [
       "        try:\n            os.write(fd, response.content)\n        except BaseException:\n            # Don't leave the temporary file behind if it couldn't be written\n            os.remove(filepath)\n            raise\n        finally:\n            os.close(fd)\n",
       "        os.write(fd, response.content)\n        os.close(fd)\n", {"R5"}),
     M("drop-seek-restore", CM, "BaseImage._display_animated", "            self._seek_position = prev_seek_pos\n", "", {"R6"}),
+    M("release-before-cached-loops", CM, "ImageIterator._animate", "        if cached:\n            n_frames = len(cache)\n", "        if cached:\n            n_frames = len(cache)\n            image._close_image(img)\n", {"R7"}),
+    M("seek-reply-dropped", CM, "ImageIterator._animate", "                sent = yield frame\n                n = n + 1 if sent is None else sent - 1\n", "                sent = yield frame\n                if sent is None:\n                    n += 1\n                else:\n                    n = sent\n                    sent = yield frame\n", {"R8"}),
     M("twin-rename-prev", CM, "BaseImage._get_render_data", "prev_img", "old_img", twin=True, count=0),
 ]
